@@ -310,5 +310,47 @@ func main() {
 			}
 			e.Strs("inverserFacts", facts, "inverser: getSlice takes the table from the pool and clears it; newInverser fills it; Inverse reads it")
 		}
-	}, "frac/inverser.go", "frac/processor/search.go", "frac/processor/eval_tree.go", "frac/processor/search_params.go", "node/node_not.go", "node/builder.go", "node/less_fn.go", "frac/active_index.go")
+		// ---- seq.MergeQPRs: how the merged ids are ordered, and what `Less` on IDSources compares
+		if fq, err := r.Load("seq/qpr.go"); err != nil {
+			e.Missing("mergeOrderFacts", err)
+		} else {
+			var facts []string
+			if fd := fq.Func("IDSources", "Less"); fd != nil && len(fd.Body.List) == 1 {
+				if ret, ok := fd.Body.List[0].(*ast.ReturnStmt); ok {
+					facts = append(facts, "IDSources.Less: "+fq.Render(ret.Results[0]))
+				}
+			}
+			if fd := fq.Func("", "MergeQPRs"); fd != nil {
+				ast.Inspect(fd.Body, func(n ast.Node) bool {
+					is, ok := n.(*ast.IfStmt)
+					if !ok || fq.Render(is.Cond) != "order.IsReverse()" {
+						return true
+					}
+					for _, st := range is.Body.List {
+						facts = append(facts, "reverse: "+fq.Render(st))
+					}
+					if el, ok := is.Else.(*ast.BlockStmt); ok {
+						for _, st := range el.List {
+							facts = append(facts, "regular: "+fq.Render(st))
+						}
+					}
+					return false
+				})
+			}
+			if fs, err := r.Load("seq/seq.go"); err == nil {
+				if fd := fs.Func("", "Less"); fd != nil {
+					ast.Inspect(fd.Body, func(n ast.Node) bool {
+						switch x := n.(type) {
+						case *ast.IfStmt:
+							facts = append(facts, "seq.Less: if "+fs.Render(x.Cond))
+						case *ast.ReturnStmt:
+							facts = append(facts, "seq.Less: return "+fs.Render(x.Results[0]))
+						}
+						return true
+					})
+				}
+			}
+			e.Strs("mergeOrderFacts", facts, "seq.MergeQPRs orders the merged ids with sort.Sort over IDSources (ascending) or its sort.Reverse (regular = descending); IDSources.Less is seq.Less on (MID, RID)")
+		}
+	}, "seq/qpr.go", "seq/seq.go", "frac/inverser.go", "frac/processor/search.go", "frac/processor/eval_tree.go", "frac/processor/search_params.go", "node/node_not.go", "node/builder.go", "node/less_fn.go", "frac/active_index.go")
 }
